@@ -242,6 +242,24 @@ CHECKS = {
             {"harness": "c16_order", "flavour": "asan", "runs": {"quick": 12000, "thorough": 1200000}, "wall": {"quick": 35, "thorough": 2400}},
         ],
     },
+    "C17": {
+        "level": "exploration",
+        "rule": ("each run = one or two callers sharing one HttpClient (each caller its own port, requests in sequence) issuing 1-3 (5 thorough) logical requests with drawn method "
+                 "(POST, GET, DELETE, HEAD) and retry budget 0-3 against a scripted raw-socket server that executes one planned fault per exchange: none, valid response announcing "
+                 "Connection: close but left open, valid response followed by surplus bytes and left open, close-delimited response, reset at accept, reset or FIN after k request "
+                 "bytes, reset or FIN after the whole request, response cut at byte j followed by FIN or reset, malformed response (conflicting Content-Length / bad chunk size), "
+                 "silence, partial response then silence; the listener may open 50-400 ms late (earlier connects are refused); sweep runs step the fault position over the bytes of "
+                 "the request or of the response, one logical request per position (strided in quick, every byte in thorough); the server attributes every byte it receives to "
+                 "the logical request in progress: POST reaches the wire in at most one exchange, idempotent methods in at most budget+1, nothing is sent again after a malformed "
+                 "response and a malformed response is never returned (except to HEAD), no byte arrives on a connection that announced close or delivered surplus bytes, and "
+                 "each call returns within (budget+1) x (connect + 2 x request timeout) + back-off"),
+        "real": ["iora::network::HttpClient (performRequest retry loop, executeRequest, lease, eviction, framing)", "iora::network::Transport connectSync/sendSync/receiveSync, TcpEngine"],
+        "stub": COMMON_STUB,
+        "assumptions": ["'reached the wire' is judged at the receiving socket: bytes the client handed to its kernel but that were destroyed by a reset before arriving are not counted"],
+        "jobs": [
+            {"harness": "c17_retry", "flavour": "asan", "runs": {"quick": 2500, "thorough": 250000}, "wall": {"quick": 80, "thorough": 2400}},
+        ],
+    },
     "C19": {
         "level": "exploration",
         "rule": ("cache job: each run = one seeded history of 6-65 steps over 6 names (three spellings of one name differing only in case, a name that extends another) x 3 types x 2 "
